@@ -104,6 +104,8 @@ type world struct {
 	received atomic.Int32
 	closed   atomic.Bool
 	n        atomic.Int32
+
+	openAtCloseReturn []string
 }
 
 func (w *world) guard(name string, f func()) {
@@ -170,8 +172,34 @@ func (w *world) subscribe(reader string) (context.CancelFunc, error) {
 }
 
 func (w *world) closeAll() {
+	ok := true
 	w.guard("Close", func() { w.front.Close() })
-	w.guard("Close", func() { w.ps.Close() })
+	w.guard("Close", func() {
+		if err := w.ps.Close(); err != nil {
+			ok = false
+		}
+	})
+	if !ok {
+		return
+	}
+	// Close has returned to THIS caller: every output channel handed out so far must be closed now
+	// (an empty channel that would block a receive is provably still open; a received value proves nothing)
+	w.mu.Lock()
+	chans := append([]<-chan *message.Message(nil), w.chans...)
+	w.mu.Unlock()
+	open := 0
+	for _, ch := range chans {
+		select {
+		case <-ch:
+		default:
+			open++
+		}
+	}
+	if open > 0 {
+		w.mu.Lock()
+		w.openAtCloseReturn = append(w.openAtCloseReturn, fmt.Sprintf("%d of %d output channels were still open when a Close call returned", open, len(chans)))
+		w.mu.Unlock()
+	}
 }
 
 func pair(e *vlib.Env, cell int) vlib.Result {
@@ -276,7 +304,9 @@ func pair(e *vlib.Env, cell int) vlib.Result {
 	deferred := map[string]chan struct{}{}
 	for name, ch := range map[string]chan struct{}{"A(" + ak.op + ")": aDone, "B(" + bk + ")": bDone} {
 		if o, d := vlib.WaitClosed(ch, vlib.WD); o == vlib.Stuck {
-			legit := withheld && !closedAlready && (strings.Contains(name, "publish") || strings.Contains(name, "subscribe"))
+			// once the withholding subscription itself has been cancelled nothing explains a blocked call any more
+			sub1Cancelled := ak.op == "cancel" || bk == "cancel"
+			legit := withheld && !closedAlready && !sub1Cancelled && (strings.Contains(name, "publish") || strings.Contains(name, "subscribe"))
 			if !legit {
 				res.Fail("call-stuck", "%s never returned (process quiescent) in cell: %s", name, spec)
 				res.Witness = d
@@ -344,6 +374,9 @@ func pair(e *vlib.Env, cell int) vlib.Result {
 	w.mu.Lock()
 	for _, p := range w.panics {
 		res.Fail("panic", "%s in cell: %s", p, spec)
+	}
+	for _, o := range w.openAtCloseReturn {
+		res.Fail("close-returned-with-open-channel", "%s in cell: %s", o, spec)
 	}
 	w.mu.Unlock()
 	res.Hooks = ctl.Counts()
@@ -507,6 +540,9 @@ func random(e *vlib.Env) vlib.Result {
 	}
 	for _, p := range rn.Panics() {
 		res.Fail("panic", "%s", p)
+	}
+	for _, o := range rn.OpenAtClose() {
+		res.Fail("close-returned-with-open-channel", "%s", o)
 	}
 	res.Events = int(rn.Events.Load())
 	res.Hooks = ctl.Counts()
